@@ -1488,11 +1488,9 @@ def crash_class(case, res):
 # bare (transfer) on the instance parameter (081dd14), unknown transfer / scope words written (0c5d020),
 # Returns: (array length=p) on a signal (280bbea); references to the instance / GError** parameter and
 # direction annotations on return values (af359fc); unresolvable (type) on signals (fc59d40); (destroy P)
-# over an explicit scope of P (05dfe62); (not optional) (faf246d).
+# over an explicit scope of P (05dfe62); (not optional) (faf246d); (type) override + (nullable)/(allow-none)/
+# (transfer) on a signal parameter without a C type: None.endswith in _is_pointer_type (d9df372).
 PENDING_FINDINGS = {
-    'crash:signal-type-override-without-ctype':
-        '(type gint) + (nullable)/(allow-none)/(transfer) on a signal parameter whose type came from the dump (no C '
-        'type): _is_pointer_type calls None.endswith',
     'pointer-to-basic-alias-rejects-nullable':
         '(nullable) / (allow-none) on a pointer to an alias of a basic type (`FooInt *p`, `GQuark *p`): rejected with '
         '"only valid for pointer types" because _is_pointer_type looks at the alias target\'s own ctype',
